@@ -61,8 +61,10 @@ def monitor_shared(w, cfg):
     b = cfg["budget"]
     W = b["window"] * 0.125
     grants = []
+    retries = []   # instants of retries actually granted (retry events) + tokens taken by others
     specs = {inc: BudgetSpec(b["max"], W, inc) for inc in (False, True)}
     pending_retry = 0
+    last_consume_t = 0.0
     for r in w.trace:
         if r[0] in ("consume", "consume_x"):
             t = r[2]
@@ -76,18 +78,26 @@ def monitor_shared(w, cfg):
             if r[0] == "consume_x":
                 if r[1]:
                     grants.append(t)
+                    retries.append(t)
                 continue
+            last_consume_t = t
             if r[1]:
                 grants.append(t)
                 pending_retry += 1
             else:
                 pending_retry = -1000
         elif r[0] == "metric" and r[1] == "retry":
+            retries.append(last_consume_t)
             pending_retry -= 1
             if pending_retry < 0:
                 v.append(("c10.retry-without-grant", "a retry was granted without a budget token"))
                 pending_retry = 0
         elif r[0] == "metric" and r[1] == "budget_exhausted":
+            live = sum(1 for g in retries if last_consume_t - g <= W)
+            if live + 1 <= b["max"]:
+                v.append(("c10.refused-while-not-full",
+                          f"BUDGET_EXHAUSTED at t={last_consume_t} although only {live} retries were "
+                          f"granted in the last {W}s (max_retries={b['max']}); retries at {retries}"))
             if pending_retry > -500:
                 v.append(("c10.exhausted-without-refusal", "BUDGET_EXHAUSTED reported although "
                                                            "the budget did not refuse"))
